@@ -92,7 +92,10 @@ def run(ctx):
     ctx.replay(progs, sched_replayer, label="s2c-sched",
                nontrivial=lambda e, p: any(s["act"] == "iterate" for s in p))
     ctx.cov["exhaustive"] = True
-    ctx.cov["rule"] = "tbd"
+    ctx.cov["rule"] = ("programs: every sequence of add_callback/spawn_callback, add_timeout (absolute, timedelta) / call_later / "
+                       "call_at, add_future, resolve, remove_timeout, clock advance and single loop iteration up to the Gen "
+                       "bound, with callback scripts (noop, raise, failing coroutine, add_callback, add_timeout, remove_timeout, "
+                       "resolve) - grouped by program; distinct = distinct program; non-trivial = contains an iteration")
 
 
 def replay(ctx, rec):
